@@ -465,10 +465,11 @@ func zzsPutBlock(chDB *db.DB, height, timestamp uint32, id byte, finalizedHeight
 //   - when the reference block (height = blocks per 30 days) is at or below the finalized block: s >= reference
 //     height + number of slots between the reference block and the finalized block — no fork that shares the
 //     reference block can have reached a greater height by the time of the finalized block.
+//
 // Chain: finalized block at symbolic height/timestamp, reference block present or not, above/at/below the
 // finalized block, timestamps consistent with one block per slot at most; timeShutdown arbitrary.
 //
-//zz:opt loop=300 lockdiscipline=off require=estimated,refused_not_finalized,refused_no_reference
+//zz:opt primary=cvc5-int loop=300 lockdiscipline=off require=estimated,refused_not_finalized,refused_no_reference
 //zz:stub encoding/json.Unmarshal zzsStubUnmarshal
 //zz:quick hmin=14 hbits=21 tsmin=21 tsbits=28
 //zz:thorough hmin=0 hbits=32 tsmin=0 tsbits=32 budget=1800s
@@ -550,11 +551,12 @@ func zzsEstimateSafe(t *zzT, shape int) {
 	}
 	s := resp.MaxHeightGenerated
 	t.Assert(t.And(resp.Height == s, resp.MaxHeightPrevoted == s), "the estimate uses one height for height, maxHeightPrevoted and maxHeightGenerated")
-	t.Assert(s >= fh, "the estimated maxHeightGenerated is never below the finalized height (the generator may have forged the finalized block itself)")
 	if shape == 3 {
+		t.Assert(s >= fh, "the estimated maxHeightGenerated is never below the finalized height (the generator may have forged the finalized block itself)")
 		t.Reach("estimated_young_chain")
 		return
 	}
+	// (this bound implies s >= finalized height: the chain itself has finalized-ref blocks in those slots)
 	t.Assert(uint64(s) >= uint64(ref)+(uint64(fts)-uint64(rts))/blockTime,
 		"the estimated maxHeightGenerated is not below the height any fork sharing the reference block can have reached by the time of the finalized block")
 	t.ObserveU64("estimate", uint64(s))
